@@ -145,6 +145,8 @@ package websocket
 //@ func (*mu).unlock
 //@ tags C05
 //@ requires m != nil && m.ch != nil
+//@ requires [mc] {C05} m.c != nil
+//@ requires [held-or-closed] {C05} gvcHeld(m.ch) || gvcClosed(m.c.closed)
 //@ modifies chanstate(m.ch)
 //@ ensures [released] !gvcHeld(m.ch)
 
@@ -277,6 +279,7 @@ package websocket
 //@ ensures [dict-released-only] c.msgReader.dict == old(c.msgReader.dict) || c.msgReader.dict == nil
 //@ ensures [no-second-close] {C16} old(c.closeSent) && h.opcode == opClose ==> ghwr(c.bw).pos == old(ghwr(c.bw).pos) && ghwr(c.bw).buffered == old(ghwr(c.bw).buffered)
 //@ ensures [close-sent-monotone] {C16} old(c.closeSent) ==> c.closeSent
+//@ ensures [readmu-released-only-closed] {C05} !gvcHeld(c.readMu.ch) ==> gvcClosed(c.closed)
 
 //@ func (*Conn).readLoop
 //@ tags C03 C04
@@ -297,6 +300,7 @@ package websocket
 //@ loop 1 invariant [inv] connReady(c) && c.br == old(c.br) && c.br != nil && gvcHeld(c.readMu.ch) && !gvcHeld(c.writeFrameMu.ch) && !gvcHeld(c.msgWriter.writeMu.ch) && (c.msgReader.dict == old(c.msgReader.dict) || c.msgReader.dict == nil)
 //@ ensures [close-sent-monotone] {C16} old(c.closeSent) ==> c.closeSent
 //@ loop 1 invariant [close-sent-monotone] {C16} old(c.closeSent) ==> c.closeSent
+//@ ensures [readmu-released-only-closed] {C05} !gvcHeld(c.readMu.ch) ==> gvcClosed(c.closed)
 
 // ---------------------------------------------------------------------------
 // read.go: message level (C03, C04, C08, C01)
@@ -443,6 +447,7 @@ package websocket
 //@ ensures [closing] c.closing
 //@ ensures [joined] {C20} err == nil ==> gvcClosed(c.timeoutLoopDone) && gvcClosed(c.closed) && (c.closeReadCtx != nil ==> gvcClosed(c.closeReadDone))
 //@ ensures [close-sent-monotone] {C16} old(c.closeSent) ==> c.closeSent
+//@ ensures [second-call-joined] {C20} old(c.closing) && errIs(err, net.ErrClosed) ==> gvcClosed(c.timeoutLoopDone) && (c.closeReadCtx != nil ==> gvcClosed(c.closeReadDone))
 
 //@ func (*Conn).CloseNow
 //@ tags C06 C20
@@ -451,6 +456,7 @@ package websocket
 //@ ensures [second-call] old(c.closing) ==> err != nil
 //@ ensures [closing] c.closing
 //@ ensures [joined] {C20} err == nil ==> gvcClosed(c.timeoutLoopDone) && gvcClosed(c.closed) && (c.closeReadCtx != nil ==> gvcClosed(c.closeReadDone))
+//@ ensures [second-call-joined] {C20} old(c.closing) && errIs(err, net.ErrClosed) ==> gvcClosed(c.timeoutLoopDone) && (c.closeReadCtx != nil ==> gvcClosed(c.closeReadDone))
 
 // ---------------------------------------------------------------------------
 // write.go (C02, C01, C10, C05, C16)
@@ -554,9 +560,11 @@ package websocket
 //@ ensures [n] err == nil ==> result0 == len(p)
 //@ ensures [nothing-after-close] {C16} old(mw.c.closeSent) ==> ghwr(mw.c.bw).pos == old(ghwr(mw.c.bw).pos) && ghwr(mw.c.bw).buffered == old(ghwr(mw.c.bw).buffered)
 //@ ensures [close-sent-kept] {C16} mw.c.closeSent == old(mw.c.closeSent)
+//@ ensures [mu-kept] {C05} gvcHeld(mw.mu.ch) == old(gvcHeld(mw.mu.ch)) && mw.closed == old(mw.closed)
 
 //@ func (*msgWriter).Close
 //@ tags C02 C01 C05 C14
+//@ requires [mu-held] {C05} mw.closed || gvcHeld(mw.mu.ch) || gvcClosed(mw.c.closed)
 //@ requires connInv(mw.c) && specWriteInv(mw.c) && mw.c.msgWriter == mw && mw.ctx != nil && !gvcHeld(mw.writeMu.ch) && !gvcHeld(mw.c.writeFrameMu.ch) && 0 <= mw.opcode && mw.opcode <= 2
 //@ requires [flate-owner] (mw.flateWriter != nil ==> ghconnW(ghfw(mw.flateWriter).dst) == mw.c) && (mw.flate ==> mw.flateWriter != nil && mw.trimWriter != nil && mw.c.copts != nil)
 //@ modifies $WRFPw, mw.opcode, mw.closed, mw.flateWriter, chanstate(mw.writeMu.ch), chanstate(mw.mu.ch), mw.trimWriter.tail, bytes(mw.trimWriter.tail)
